@@ -159,9 +159,80 @@ def run(spec):
     return {'nontrivial': nontrivial, 'labels': labels}
 
 
+# ---------------------------------------------------------------------------------------------- economies
+@st.composite
+def economy_case(draw):
+    from harness import econ
+    return draw(econ.economy(zones=(1, 2), horizon=(2, 3)))
+
+
+def run_economy(spec):
+    """Second corpus with realistic structure: the final text of a generated economy, solved by the real solver."""
+    from fractions import Fraction
+    from harness import econ, refsolve
+    K = spec['horizon']
+    built = econ.build(spec, maxtime=K)
+    if built.error is not None:
+        name = type(built.error).__name__
+        if name in ('ConvergenceError', 'ValueError'):
+            return {'nontrivial': False, 'labels': ['outcome:' + name]}
+        raise Reject('model refused: ' + name)
+    ts = built.model.EquationSolver.TimeSeries
+    system = refsolve.parse_final(built.text)
+    tol = float(system.tol or '1e-8')
+    for name, series in ts.items():
+        if len(series) != K + 1:
+            raise Violation('C02/economy-length', '%s has %d values, horizon+1 = %d' % (name, len(series), K + 1))
+        for k, v in enumerate(series):
+            if not blocks.is_finite_number(v):
+                raise Violation('C02/non-finite-reported', 'economy solved normally but %s[%d] = %r' % (name, k, v))
+    exo_vals = system.exo_values(K)
+    decoration = set(v for v, _ in built.model.EquationSolver.Parser.Decoration)
+    worst = 0.0
+    for k in range(1, K + 1):
+        for v, vals in exo_vals.items():
+            if ts[v][k] != float(vals[k]):
+                raise Violation('C02/exogenous-changed', 'economy: %s[%d] = %r, supplied %r' % (v, k, ts[v][k], float(vals[k])))
+        for lv, src in system.lags.items():
+            if ts[lv][k] != ts[src][k - 1]:
+                raise Violation('C02/lag', 'economy: %s[%d] != %s[%d]' % (lv, k, src, k - 1))
+        env = {name: series[k] for name, series in ts.items()}
+        scale = max([1.0] + [abs(x) for x in env.values()])
+        prev = {name: Fraction(series[k - 1]) for name, series in ts.items()}
+        try:
+            known, forms, nonaffine = system.period_forms(k, prev, exo_vals)
+        except Exception:
+            raise Reject('harness cannot linearise the economy')
+        for name, rhs in system.eqs.items():
+            want = expr.float_eval(rhs, env)
+            got = ts[name][k]
+            if name in decoration:
+                if got != want:
+                    raise Violation('C02/derived-not-exact', 'economy: derived-only %s = %s: reported %r, equation gives %r at k=%d' %
+                                    (name, rhs, got, want, k))
+                continue
+            if name in forms:
+                lam = float(sum(abs(c) for c in forms[name].coef.values()))
+            elif name in known:
+                lam = 0.0
+            else:
+                continue      # non-affine row (none generated); no certified Lipschitz constant
+            bound = 4.0 * tol * (1.0 + lam) * scale
+            resid = abs(got - want)
+            if not resid <= bound:
+                raise Violation('C02/residual', 'economy: %s = %s at k=%d: reported %r, equation gives %r; residual %.3g > bound '
+                                '%.3g (tol %g, Lambda %.3g, scale %.3g)' % (name, rhs, k, got, want, resid, bound, tol, lam, scale))
+            worst = max(worst, resid / bound)
+    labels = ['outcome:ok', 'zones:%d' % len(spec['zones'])]
+    if worst > 0.5:
+        labels.append('residual>0.5bound')
+    return {'nontrivial': True, 'labels': labels}
+
+
 FAMILIES = [
     Family('contraction', contraction_case, run, quick=1600, thorough=60000),
     Family('diverging', diverging_case, run, quick=600, thorough=20000),
+    Family('economies', economy_case, run_economy, quick=192, thorough=3000),
 ]
 
 MANIFEST_INFO = {
